@@ -24,6 +24,8 @@ type jsCall struct {
 	Args []interface{} `json:"args,omitempty"`
 	Ctx  string        `json:"ctx,omitempty"`  // "", "rec", "parent", "root" (grandparent); "newrec" = world step, no call
 	Want string        `json:"want,omitempty"` // expected JSON of the result, or "ERROR"
+	// WantSerial: the expected result is the text of the current record's v (its serial number)
+	WantSerial bool `json:"want_serial,omitempty"`
 }
 
 // argument values shared by several calls of a history, as the values of one declaration are when the
@@ -80,6 +82,11 @@ func c20Alphabet() []jsCall {
 		{Name: "newrec", Ctx: "newrec"},
 		{Name: "ctx-rec", JS: "JSON.parse(_node).v", Ctx: "rec"},
 		{Name: "ctx-rec-with-arg", JS: "JSON.parse(_node).v + a", Args: []interface{}{"a", "!"}, Ctx: "rec"},
+		// the node is there however the script reaches it: through the global object under a computed name,
+		// from code that is data, under a unicode escape (want: the record's serial number, an absolute oracle)
+		{Name: "ctx-rec-through-this", JS: "JSON.parse(this['_no' + 'de']).v", Ctx: "rec", WantSerial: true},
+		{Name: "ctx-rec-through-eval-of-arg", JS: "JSON.parse(eval(e)).v", Args: []interface{}{"e", "_node"}, Ctx: "rec", WantSerial: true},
+		{Name: "ctx-rec-unicode-escape", JS: "JSON.parse(_n\\u006fde).v", Ctx: "rec", WantSerial: true},
 		{Name: "ctx-root", JS: "_node", Ctx: "root"},
 		{Name: "ctx-parent", JS: "_node", Ctx: "parent"},
 		{Name: "typeof-_node-without-context", JS: "typeof _node", Want: `"undefined"`},
@@ -308,6 +315,12 @@ func c20RunHistory(names []string, x *core.Exec) (sig, detail string, outcomes [
 		outcomes = append(outcomes, got)
 		want := c.Want
 		ref := w.reference(c)
+		if c.WantSerial {
+			want = fmt.Sprintf("%q", fmt.Sprint(w.serial))
+			if ref != want {
+				return "_node-not-given-to-a-script-that-reads-it-indirectly", fmt.Sprintf("call %q args %v on the record with v=%d returned %s on a fresh VM, expected %s", c.JS, c.Args, w.serial, ref, want), outcomes
+			}
+		}
 		if want == "" {
 			want = ref
 		}
@@ -394,7 +407,7 @@ func init() {
 			"scripts that assign globals themselves are excluded by the property; top-level scripts of the alphabet are pure expressions or IIFEs",
 			"the isolated reference call uses the library's own 'caching disabled' path (fresh goja VM, no program / node-JSON cache)",
 		},
-		BudgetQuick: 100, BudgetThorough: 1500,
+		BudgetQuick: 300, BudgetThorough: 1500,
 		Run: func(c *core.Ctx) {
 			alpha := c20Alphabet()
 			depth := 3
